@@ -33,6 +33,8 @@ type PropSpec struct {
 	// withdrawn and the functions relying on it are verified again without it;
 	// the property is violated iff one of its own obligations then fails.
 	Rely []string `json:"rely"`
+	// NoClosure: do not verify relied-upon callees outside the function list.
+	NoClosure bool `json:"no_closure"`
 	FrameAll    bool     `json:"frame_all"`     // functions without a contract are checked against `assigns \\nothing`
 	Assumptions []string `json:"assumptions"` // stated, unchecked assumptions
 	Bounded     []struct {
@@ -248,11 +250,77 @@ func runCheck(prop, tier string, seed int) int {
 	}
 	wg.Wait()
 
+	// closure: the proofs above use the contracts of callees; a callee that is
+	// not one of the property's own functions is verified too ("relied-upon
+	// function"), transitively.  Its obligations are not counted for this
+	// property; they matter only when a postcondition or invariant of it fails
+	// (then the clause is withdrawn below and its users are verified again).
+	relyOnly := map[string]bool{}
+	shortOf := map[string]string{} // contract key -> short name
+	for k, fn := range w.funcs {
+		shortOf[vc.FuncKey(fn)] = k
+	}
+	if !ps.NoClosure {
+		have := map[string]bool{}
+		for _, n := range names {
+			have[n] = true
+		}
+		from := 0
+		for wave := 0; wave < 12; wave++ {
+			var add []string
+			for _, r := range results[from:] {
+				for ck := range r.ex.Callees {
+					sn, ok := shortOf[ck]
+					if !ok || have[sn] {
+						continue
+					}
+					fn := w.funcs[sn]
+					if fn == nil || len(fn.Blocks) == 0 {
+						continue
+					}
+					if sp := w.db.Lookup(fn); sp == nil || sp.Trusted || sp.Extern || sp.Inline {
+						continue
+					}
+					have[sn] = true
+					add = append(add, sn)
+				}
+			}
+			if len(add) == 0 {
+				break
+			}
+			sort.Strings(add)
+			from = len(results)
+			more := make([]*fnRes, len(add))
+			var wg3 sync.WaitGroup
+			for i, name := range add {
+				relyOnly[name] = true
+				wg3.Add(1)
+				go func(i int, name string) {
+					defer wg3.Done()
+					sem <- struct{}{}
+					tg := time.Now()
+					ex := vc.NewExec(w.prog, w.db, w.funcs[name])
+					ex.Generate()
+					gen := time.Since(tg).Seconds()
+					<-sem
+					res := ex.DischargeWith(quick, solverSem)
+					more[i] = &fnRes{name: name, ex: ex, res: res, gen: gen}
+				}(i, name)
+			}
+			wg3.Wait()
+			results = append(results, more...)
+		}
+	}
+
 	// relied-upon clauses that failed: withdraw them and verify the functions
 	// that relied on them again (until nothing new fails)
 	var withdrawn []string
-	if len(ps.Rely) > 0 {
-		counted := func(o *vc.Obligation) bool {
+	relyKinds := ps.Rely
+	if len(relyKinds) == 0 {
+		relyKinds = []string{"post", "inv-init", "inv-keep"}
+	}
+	{
+		ownCounted := func(o *vc.Obligation) bool {
 			return kindMatches(ps.Kinds, o) && !(len(ps.ExcludeK) > 0 && kindMatches(ps.ExcludeK, o))
 		}
 		fullKey := map[string]int{}
@@ -263,7 +331,8 @@ func runCheck(prop, tier string, seed int) int {
 			rerun := map[int]bool{}
 			for i, r := range results {
 				for _, o := range r.res {
-					if o.O.Cover || o.Status == "proved" || counted(o.O) || !kindMatches(ps.Rely, o.O) {
+					counted := !relyOnly[r.name] && ownCounted(o.O)
+					if o.O.Cover || o.Status == "proved" || counted || !kindMatches(relyKinds, o.O) {
 						continue
 					}
 					var key string
@@ -338,6 +407,7 @@ func runCheck(prop, tier string, seed int) int {
 	loopsTotal, loopsTerm := 0, 0
 	var notes []string
 	crossStats := map[string]map[string]int{}
+	var reliedFns []string
 	for _, r := range results {
 		for _, p := range r.ex.Probs {
 			problems = append(problems, fmt.Sprintf("%s: %s", r.name, p.Msg))
@@ -360,6 +430,16 @@ func runCheck(prop, tier string, seed int) int {
 		}
 		for k := range r.ex.Callees {
 			callees[k] = true
+		}
+		if relyOnly[r.name] {
+			// relied-upon function: verified for the closure above, nothing of it
+			// is counted for this property (vacuity covers of its own contract
+			// belong to the property that owns it)
+			reliedFns = append(reliedFns, r.name)
+			for _, o := range r.res {
+				solverTime += o.Time
+			}
+			continue
 		}
 		// a cover obligation is checked under the assumption of every earlier
 		// obligation of the function; when one of those failed, an unsatisfiable
@@ -498,6 +578,7 @@ func runCheck(prop, tier string, seed int) int {
 		"checker_cmd":              fmt.Sprintf("/verif/bin/govc check --property %s --tier %s", prop, tier),
 		"trusted_base":             trusted,
 		"functions_under_contract": names,
+		"relied_upon_functions":    reliedFns,
 		"functions_with_contract":  withSpec,
 		"contracted_callees_used":  sortedKeys(callees),
 		"inlined_repo_functions":   sortedKeys(inlined),
@@ -556,8 +637,8 @@ func runCheck(prop, tier string, seed int) int {
 	os.MkdirAll(filepath.Join(dir, "evidence"), 0o755)
 	data, _ := json.MarshalIndent(ev, "", " ")
 	os.WriteFile(filepath.Join(dir, "evidence", prop+".json"), data, 0o644)
-	fmt.Printf("property=%s tier=%s functions=%d obligations=%d discharged=%d failed=%d undecided=%d known=%d problems=%d wall=%.1fs\n",
-		prop, tier, len(names), nObl, nDis, len(violations), len(undecided), len(dedupe(knownHit)), len(dedupe(problems)), time.Since(t0).Seconds())
+	fmt.Printf("property=%s tier=%s functions=%d relied=%d obligations=%d discharged=%d failed=%d undecided=%d known=%d problems=%d wall=%.1fs\n",
+		prop, tier, len(names), len(reliedFns), nObl, nDis, len(violations), len(undecided), len(dedupe(knownHit)), len(dedupe(problems)), time.Since(t0).Seconds())
 	return exit
 }
 
